@@ -703,6 +703,57 @@ def check_no_width_narrowing_in_conversions(ctx, res, config="all"):
     res.clause("C08: no From/TryFrom/FromPrimitive/ToBig* impl casts its primitive input to a narrower integer type (one reviewed digit-splitting loop excepted)")
 
 
+def check_signed_cast_guarded(ctx, res, config="all"):
+    """conversions to signed primitives: an unsigned value cast with `as` to a signed type of the same or a smaller width
+    changes sign for values at or above 2^(N-1).  Casting back and comparing for equality does not notice (the way back
+    sign-extends: `(x as i64) as u64 == x` holds for every x; for a narrower iN it also accepts the top 2^(N-1) values), so such
+    a cast is sound only behind an *ordering* test of the value (`n < 1 << 63`, `n.cmp(&m)`, `x <= iN::MAX as u64`)."""
+    facts = ctx.facts(config)
+    n = 0
+    for b in facts.bodies:
+        if not (b.file or "").endswith("convert.rs") and b.trait not in CONVERSION_TRAITS:
+            continue
+        ordered = None
+        for i, si, s in b.stmts():
+            rv = s.get("rv")
+            if not (rv and rv["k"] == "cast" and rv["ck"] == "IntToInt"):
+                continue
+            fa, fb = int_info(rv["from"]), int_info(rv["to"])
+            if not (fa and fb) or fa[0] or not fb[0] or fb[1] > fa[1]:
+                continue
+            if rv["op"]["k"] == "const" or i not in b.live_blocks():
+                continue
+            n += 1
+            if ordered is None:
+                ordered = set()
+                for bi2, si2, s2 in b.stmts():
+                    r2_ = s2.get("rv")
+                    if r2_ and r2_["k"] == "binop" and r2_["op"] in ("Lt", "Le", "Gt", "Ge"):
+                        for o in (r2_["a"], r2_["b"]):
+                            if o["k"] != "const" and core.op_place(o) is not None:
+                                ordered.add(_copy_root(b, o["place"]["local"]))
+                for bi2, t2 in b.terms():
+                    if t2["k"] == "call" and (core.callee_name(t2) or "") in ("lt", "le", "gt", "ge", "cmp", "partial_cmp", "min", "max", "try_from", "try_into"):
+                        for o in t2["args"]:
+                            if o["k"] != "const" and core.op_place(o) is not None:
+                                l_ = o["place"]["local"]
+                                ordered.add(_copy_root(b, l_))
+                                # a reference to the value: `n.cmp(&m)` takes &n
+                                for d_ in b.defs().get(l_, []):
+                                    if d_[0] == "assign" and d_[3]["rv"]["k"] == "ref" and not d_[3]["rv"]["place"]["proj"]:
+                                        ordered.add(_copy_root(b, d_[3]["rv"]["place"]["local"]))
+            root = _copy_root(b, rv["op"]["place"]["local"])
+            key = "%s|%s->%s" % (b.path, rv["from"], rv["to"])
+            if root in ordered:
+                res.ok("R2-signed-cast", key, {"guard": "the value is range-tested by an ordering comparison"})
+            else:
+                res.fail(Finding("R2-signed-cast", key, "an unsigned value is cast %s -> %s (line %s) and the function never compares it by order with anything: values of 2^%d and above come out negative, and a cast-back-and-compare test cannot see that (the way back sign-extends)" % (rv["from"], rv["to"], s["span"]["line"], fb[1] - 1), b, s["span"]["line"]))
+    res.count("unsigned -> signed same-or-narrower casts in conversions", n)
+    if config == "all" and n < 2:
+        res.fail(Finding("R2-anchor-lost", "signed-casts", "only %d unsigned->signed casts found in the conversions (floor 2: to_i64/to_i128)" % n, file="src/bigint/convert.rs", line=0))
+    res.clause("C08: an unsigned value is cast to a signed type of the same or a smaller width only behind an ordering test of that value")
+
+
 # ------------------------------------------------------------------------------------------
 # digit counts / indices are never truncated
 
